@@ -38,6 +38,60 @@ EXTRA = [
 to_markup = gendocs.to_markup
 
 
+def meta_layer(ev, vd, plain, thorough):
+    """Meta.tla: the VALUES of the metadata.  (A) MC_Meta: process_parenthetical as the loop the code runs, the strip
+    helpers, get_year and the parallel-citation fold, exhaustively over small alphabets; (B) every finished model input
+    is replayed through the real helpers.process_parenthetical / clean_pin_cite / get_year and the outputs compared;
+    (C) Trace_Meta: per document one model step per citation, matcher results bound from the guarded hook events,
+    every metadata value recomputed from the document at the places the events name.  Differences are SPEC-DRIFT."""
+    import json
+    hi = vlib.impl_run("drv_extract", "highest_year", {})
+    cfgs = {}
+    for name in ("MC_Meta.cfg", "MC_Meta_emit.cfg"):
+        c = (vlib.SPEC / name).read_text().replace("HighestYear = 2027", f"HighestYear = {hi}")
+        if thorough:
+            c = c.replace("MaxLen = 6", "MaxLen = 8").replace("MaxCites = 4", "MaxCites = 6")
+        cfgs[name] = vlib.WORK / f"cfg-{os.getpid()}-{time.time_ns()}-{name}"
+        cfgs[name].write_text(c)
+    r = run_tlc("MC_Meta", cfgs["MC_Meta.cfg"], timeout=1500)
+    tlc_must_pass(r, "MC_Meta")
+    ev.add_tlc("MC_Meta", r, f"texts <= {8 if thorough else 6} characters, citation chains <= {6 if thorough else 4}, HighestYear = {hi}")
+    r = run_tlc("MC_Meta", cfgs["MC_Meta_emit.cfg"], timeout=1500)
+    tlc_must_pass(r, "MC_Meta_emit")
+    emitted = {}
+    for line in r.out.splitlines():
+        if line.startswith('<<"EMIT", '):
+            rec = json.loads(json.loads(line[len('<<"EMIT", '):-2]))
+            emitted[(rec["mode"], tuple(rec["txt"]))] = rec
+    recs = list(emitted.values())
+    if len(recs) < 1000:
+        raise MachineryError(f"MC_Meta_emit printed only {len(recs)} behaviours")
+    real = vlib.impl_map("drv_extract", "run_meta_funcs", [{"mode": x["mode"], "txt": x["txt"]} for x in recs])
+    nd = 0
+    for x, y in zip(recs, real):
+        want = x["out"][0] if x["mode"] == "year" else x["out"]
+        if y["out"] != want:
+            nd += 1
+            if nd <= 5:
+                vd.spec_drift("Meta", f"{x['mode']} on {''.join(map(chr, x['txt']))!r}: model {want} code {y['out']}")
+    ev.cov["meta_model_behaviours_replayed"] = len(recs)
+    ev.cov["meta_model_behaviours_differing"] = nd
+    mdocs = plain[:: (2 if thorough else 6)]
+    mobs = vlib.impl_map("drv_extract", "run_meta", [{"text": d} for d in mdocs], env={vlib.GUARD: "1"})
+    if mobs and all(o.get("hooks") for o in mobs):
+        _, drifts = tlc_judge("Trace_Meta", "Trace_Meta.cfg", mobs, ev, "meta", chunk=1500,
+                              wrap=lambda part: {"highest": hi, "traces": part})
+        for ix, rest in drifts[:20]:
+            vd.spec_drift("Meta", f"document {mdocs[ix][:90]!r}: citation / field {rest[:80]}")
+        ev.cov["meta_citations_recomputed"] = sum(1 for o in mobs for c in o["cites"] if c["judge"])
+        ev.cov["meta_citations_outside_model_domain"] = sum(1 for o in mobs for c in o["cites"] if not c["judge"])
+        ev.cov["meta_documents_skipped_non_ascii_digit"] = sum(1 for o in mobs if o["skipped"])
+        ev.cov["meta_drift_lines"] = len(drifts)
+    else:
+        ev.cov["meta_citations_recomputed"] = 0
+        ev.cov["meta_note"] = "hook events unavailable (eyecite._verif missing or guard off): Trace_Meta layer skipped"
+
+
 def main(pid):
     thorough = vlib.tier() == "thorough"
     ev, vd = Evidence(pid), Verdict(pid)
@@ -97,6 +151,7 @@ def main(pid):
     else:
         ev.cov["step_level_citations_recomputed"] = 0
         ev.cov["step_level_note"] = "hook events unavailable (eyecite._verif missing or guard off): implementation-model layer skipped"
+    meta_layer(ev, vd, [d for d in plain if "\x00" not in d], thorough)
     ev.sample({"text": "".join(map(chr, obs[0]["text"])), "cites": [(c["cls"], c["s"], c["e"], c["fs"], c["fe"]) for c in obs[0]["cites"]]})
     ev.cov["traces_validated_against_impl"] = len(obs)
     ev.cov["evaluations"] = len(obs)
